@@ -53,6 +53,8 @@ func c11rDom(id int) string {
 
 type c11Backend struct {
 	rejectMail atomic.Bool
+	rejectRcpt atomic.Bool
+	rejectData atomic.Bool
 	mails      atomic.Int64
 }
 
@@ -68,8 +70,19 @@ func (s *c11Session) Mail(from string, opts *smtp.MailOptions) error {
 	}
 	return nil
 }
-func (s *c11Session) Rcpt(to string, _ *smtp.RcptOptions) error { return nil }
-func (s *c11Session) Data(r io.Reader) error                    { _, err := io.Copy(io.Discard, r); return err }
+func (s *c11Session) Rcpt(to string, _ *smtp.RcptOptions) error {
+	if s.be.rejectRcpt.Load() {
+		return &smtp.SMTPError{Code: 550, EnhancedCode: smtp.EnhancedCode{5, 1, 1}, Message: "c11: recipient refused by the next hop"}
+	}
+	return nil
+}
+func (s *c11Session) Data(r io.Reader) error {
+	_, err := io.Copy(io.Discard, r)
+	if s.be.rejectData.Load() {
+		return &smtp.SMTPError{Code: 554, EnhancedCode: smtp.EnhancedCode{5, 6, 0}, Message: "c11: message refused by the next hop"}
+	}
+	return err
+}
 
 var c11SrvOnce sync.Once
 var c11Be *c11Backend
@@ -130,7 +143,9 @@ type c11RemCase struct {
 	obs  []string
 }
 
-func (c *c11RemCase) opLine() string { return "C11 rem " + c.cfg.String() + " " + strings.Join(c.ops, " ") }
+func (c *c11RemCase) opLine() string {
+	return "C11 rem " + c.cfg.String() + " " + strings.Join(c.ops, " ")
+}
 
 func (c *c11RemCase) bump(sc, k, d int) {
 	if sc != 0 && len(c.cfg.Scopes[sc]) == 0 {
@@ -155,6 +170,8 @@ func c11rErr(err error, cancelled bool) string {
 		return "limit-full"
 	case strings.Contains(err.Error(), "c11: sender refused"):
 		return "mail-rejected"
+	case strings.Contains(err.Error(), "c11: recipient refused"):
+		return "rcpt-rejected"
 	default:
 		return "other-error"
 	}
@@ -214,6 +231,7 @@ func (c *c11RemCase) exec(op string) bool {
 		}
 		dd, _ := strconv.Atoi(f[2])
 		c.be.rejectMail.Store(f[4] == "0")
+		c.be.rejectRcpt.Store(len(f) > 5 && f[5] == "rcptrej")
 		err, cancelled, p := vlim.RunCtx(context.Background(), func(ctx context.Context) error {
 			return dl.d.AddRcpt(ctx, "rcpt@"+c11rDom(dd), smtp.RcptOptions{})
 		})
@@ -221,7 +239,8 @@ func (c *c11RemCase) exec(op string) bool {
 			return false
 		}
 		c.out.Stat("rem:addrcpt:" + c11rErr(err, cancelled))
-		if err == nil && !dl.dests[dd] {
+		// the connection (and with it the destination permit) is kept when only RCPT was refused
+		if (err == nil || c11rErr(err, cancelled) == "rcpt-rejected") && !dl.dests[dd] {
 			dl.dests[dd] = true
 			c.bump(3, dd, 1)
 		}
@@ -234,7 +253,14 @@ func (c *c11RemCase) exec(op string) bool {
 		if len(f) > 2 {
 			how = f[2]
 		}
+		c.be.rejectData.Store(how == "bodyfail")
 		_, _, p := vlim.RunCtx(context.Background(), func(ctx context.Context) error {
+			if how == "bodyfail" {
+				hdr := textproto.Header{}
+				hdr.Add("Subject", "c11")
+				dl.d.Body(ctx, hdr, buffer.MemoryBuffer{Slice: []byte("body\r\n")})
+				return dl.d.Abort(ctx)
+			}
 			if how == "commit" {
 				hdr := textproto.Header{}
 				hdr.Add("Subject", "c11")
@@ -256,7 +282,6 @@ func (c *c11RemCase) exec(op string) bool {
 		c.bump(1, dl.ip, -1)
 		c.bump(2, dl.dom, -1)
 		delete(c.ds, id)
-		op = "x." + f[1]
 	default:
 		return false
 	}
@@ -315,15 +340,19 @@ func c11RemRun(out *vh.Out, t *testing.T, cfg vlim.Cfg, r *vh.Rng, fixed []strin
 				if r.Chance(25) {
 					mo = 0
 				}
-				ok = c.exec(fmt.Sprintf("a.%d.%d.%d.%d", id, dd, co, mo))
+				note := ""
+				if co == 1 && mo == 1 && r.Chance(15) {
+					note = ".rcptrej"
+				}
+				ok = c.exec(fmt.Sprintf("a.%d.%d.%d.%d%s", id, dd, co, mo, note))
 			default:
 				id := ids[r.Intn(len(ids))]
-				ok = c.exec(fmt.Sprintf("x.%d.%s", id, r.Pick("abort", "commit")))
+				ok = c.exec(fmt.Sprintf("x.%d.%s", id, r.Pick("abort", "commit", "bodyfail")))
 			}
 		}
 		for k := 1; k < next && ok; k++ {
 			if c.ds[k] != nil {
-				ok = c.exec(fmt.Sprintf("x.%d.%s", k, r.Pick("abort", "commit")))
+				ok = c.exec(fmt.Sprintf("x.%d.%s", k, r.Pick("abort", "commit", "bodyfail")))
 			}
 		}
 	}
@@ -489,10 +518,19 @@ func TestVerifC11RemoteConc(t *testing.T) {
 					bump(0, 0, -1)
 					bump(1, ip, -1)
 					bump(2, dom, -1)
-					if r.Bool() {
+					switch r.Intn(3) {
+					case 0:
 						d.Abort(context.Background())
-					} else {
+					case 1:
 						d.Commit(context.Background())
+					default:
+						be.rejectData.Store(r.Bool())
+						hdr := textproto.Header{}
+						hdr.Add("Subject", "c11")
+						if len(dests) > 0 {
+							d.Body(context.Background(), hdr, buffer.MemoryBuffer{Slice: []byte("body\r\n")})
+						}
+						d.Abort(context.Background())
 					}
 					cancel()
 				}
